@@ -125,6 +125,26 @@ def run_det_family(prop, tier, seed):
     return report_and_exit(prop, ev, violations)
 
 
+def run_arch_family(prop, tier, seed):
+    from . import family_arch
+    nwl, nsched = {"quick": (32, 8), "thorough": (480, 30)}[tier]
+    ev = Evidence(prop, tier, seed, "exploration")
+    ev.rule = ("archgen link line (plain objects, archives, thin archives, whole-archive regions, strong "
+               "and weak cross references, a symbol defined by two members, every fourth workload with "
+               "a >5000-symbol object whose references straddle the symbol-chunking boundary) x "
+               "(command-line permutation, threads 1..8, files-per-group, schedule); loaded-member set "
+               "(marker symbols under --no-gc-sections) must equal the model's least fixpoint and no "
+               "file may be activated twice. distinct_nontrivial = distinct (workload, "
+               "interleaving-hash) pairs with a context switch")
+    ev.assumptions = ["SC interleavings", "generated link lines keep the model unambiguous: one definer "
+                      "per symbol except the explicit first-in-order-wins pair"]
+    jobs = [{"prop": prop, "seed": seed, "index": i, "tier": tier, "schedules": nsched}
+            for i in range(nwl)]
+    violations = _collect(prop, ev, pool_imap(family_arch.run_job, jobs))
+    _probe_gate(prop, tier, ev)
+    return report_and_exit(prop, ev, violations)
+
+
 def run_err_family(prop, tier, seed):
     from . import family_err
     nwl, nsched = BUDGETS_ERR[tier]
@@ -144,6 +164,7 @@ def run_err_family(prop, tier, seed):
 
 
 REQUIRED_PROBES = {
+    "C03": ["probe_take_lost", "big_object_classes", "activations"],
     "C40": ["probe_reserve_cas_lost", "probe_reserve_low", "probe_bucket_parked",
             "probe_put_resumes_parked_bucket", "probe_multi_group_sections"],
     "C07": ["probe_multi_group_sections", "pointers_checked", "unterminated_runs"],
@@ -160,15 +181,46 @@ def _probe_gate(prop, tier, ev):
         raise HarnessError(f"reach probes at zero: {missing}")
 
 
+def run_c23(tier, seed):
+    """C23 is a global invariant over every successful-by-model link: run a slice of each family."""
+    from . import family_arch, family_graph, family_str
+    prop = "C23"
+    ev = Evidence(prop, tier, seed, "exploration")
+    ev.rule = ("every simulated link of a model-valid generated input (graph, string-merge and archive "
+               "families, all their option swarms; WILD_VERIFY_ALLOCATIONS=1 on a tenth of the graph "
+               "runs) must not fail with an allocation/size-accounting error. distinct_nontrivial = "
+               "distinct (family, workload, interleaving-hash) with a context switch")
+    ev.assumptions = ["inputs are generated families, not all programs",
+                      "'valid' = accepted by the generator's model (spot-checked against GNU ld)"]
+    scale = {"quick": 1, "thorough": 16}[tier]
+    nsched = {"quick": 6, "thorough": 20}[tier]
+    violations = []
+    for name, fam, n in (("graph", family_graph, 16), ("str", family_str, 12),
+                         ("arch", family_arch, 12)):
+        jobs = [{"prop": prop, "seed": seed, "index": i, "tier": tier, "schedules": nsched}
+                for i in range(n * scale)]
+        before = set(ev.distinct)
+        ev.distinct = set()
+        v = _collect(prop, ev, pool_imap(fam.run_job, jobs))
+        ev.distinct = before | {f"{name}:{d}" for d in ev.distinct}
+        ev.count(f"family_{name}_runs", sum(1 for _ in ()))
+        violations += v
+    return report_and_exit(prop, ev, violations)
+
+
 def run(prop, tier, seed):
     if tier not in ("quick", "thorough"):
         raise HarnessError(f"unknown tier {tier}")
+    if prop == "C23":
+        return run_c23(tier, seed)
     if prop in GRAPH_PROPS:
         return run_graph_family(prop, tier, seed)
     if prop in STR_PROPS:
         return run_str_family(prop, tier, seed)
     if prop in DET_PROPS:
         return run_det_family(prop, tier, seed)
+    if prop == "C03":
+        return run_arch_family(prop, tier, seed)
     if prop == "C26":
         return run_err_family(prop, tier, seed)
     raise HarnessError(f"no check for {prop}")
@@ -189,6 +241,11 @@ def replay(path):
         job = dict(rp["job"])
         job["prop"] = doc["property"]
         res = family_str.run_job(job)
+    elif fam == "arch":
+        from . import family_arch
+        job = dict(rp["job"])
+        job["prop"] = doc["property"]
+        res = family_arch.run_job(job)
     elif fam == "err":
         from . import family_err
         job = dict(rp["job"])
